@@ -46,6 +46,7 @@ class Runner:
         self.sempler = sempler
         self.noise = noise
         self.model = {}
+        self.how = {}
         self.first_key = None
         self.perturb_count = 0
         self.seen_at = {}
@@ -93,7 +94,13 @@ class Runner:
         import sempler.generators as gens
         import sempler.utils as utils
         op = step["op"]
+        if seed is not None and step.get("seed_type") == "np_int64":
+            seed = np.int64(seed)            # a seed is a seed, whether a Python int or a numpy integer (e.g. from np.arange)
+        elif seed is not None and step.get("seed_type") == "np_uint32":
+            seed = np.uint32(seed)
         kw = {} if seed is None else {"random_state": seed}
+        if op == "normal_sample" and seed is not None and step.get("positional"):
+            return self.normal[step["fx"]].sample(step["n"], seed)          # documented signature: sample(n, random_state=None)
         if op == "lganm_new":
             m = s.LGANM(self.W[step["fx"]], tuple(step["means"]), tuple(step["variances"]), **kw)
             return (m.means, m.variances)
@@ -168,7 +175,10 @@ class Runner:
             self._invariant()
 
     def _seeded(self, step):
-        key = canon(step)
+        # the way the seed is held / passed (Python int, numpy integer, positionally) is not part of the key: all of them
+        # denote the same seeded call and must agree
+        key = canon({k: v for k, v in step.items() if k not in ("seed_type", "positional")})
+        self.how[key] = {k: step.get(k) for k in ("seed_type", "positional")}
         res = must(lib(self.call, step, step["seed"]), "seeded call %s" % key)
         b = _bytes(res)
         if key in self.model:
@@ -197,7 +207,7 @@ class Runner:
         self.inv_count = getattr(self, "inv_count", 0) + 1
         start = self.inv_count % len(keys)
         for key in (keys[start:] + keys[:start])[:12]:
-            step = json.loads(key)
+            step = dict(json.loads(key), **{k: v for k, v in self.how.get(key, {}).items() if v is not None})
             res = must(lib(self.call, step, step["seed"]), "invariant re-execution")
             if self.perturb_count > self.seen_at[key]:
                 self.repeat_after_perturb += 1
@@ -246,7 +256,8 @@ def api_step():
 
 
 def seeded_step():
-    return st.tuples(api_step(), SEEDS).map(lambda t: {**t[0], "kind": "seeded", "seed": t[1]})
+    return st.tuples(api_step(), SEEDS, st.sampled_from(["int", "int", "int", "np_int64", "np_uint32"]), st.booleans()).map(
+        lambda t: {**t[0], "kind": "seeded", "seed": t[1], "seed_type": t[2], "positional": t[3]})
 
 
 def perturb_step():
@@ -312,7 +323,8 @@ def pair_histories(seed):
                 if i == j:
                     continue
                 for mid in (True, False):
-                    h = [{"kind": "seeded", "op": "lganm_sample", "fx": fx, "iv": i, "n": 3, "seed": (seed + i) % 5}]
+                    h = [{"kind": "seeded", "op": "lganm_sample", "fx": fx, "iv": i, "n": 3, "seed": (seed + i) % 5,
+                          "seed_type": ["int", "np_int64"][(i + j) % 2]}]
                     if mid:
                         h.append({"kind": "unseeded", "op": "lganm_sample", "fx": fx, "iv": 0, "n": 2, "twice": False})
                     h.append({"kind": "seeded", "op": "lganm_sample", "fx": fx, "iv": j, "n": 3, "seed": (seed + j) % 3})
